@@ -329,11 +329,25 @@ func (vc *VC) exitAsserts(fr *Frame, con *Contract, rst *State, vars map[string]
 	for _, c := range con.ExitAsserts {
 		env := vc.loopEnvAt(fr, rst)
 		env.pre = nil
+		env.lenient = true
 		for n, v := range vars {
 			env.vars[n] = v
 		}
 		g, err := env.evalBool(c.E)
 		if err != nil {
+			// an exit assertion that mentions a ghost variable speaks about the
+			// returns reached after the ghost's cut point only
+			unboundGhost := false
+			for _, gds := range con.Ghosts {
+				for _, gd := range gds {
+					if _, bound := fr.specVars[gd.Name]; !bound && strings.Contains(err.Error(), "\""+gd.Name+"\"") {
+						unboundGhost = true
+					}
+				}
+			}
+			if unboundGhost {
+				continue
+			}
 			vc.oblige(rst, "spec-error", fmt.Sprintf("exit-assert/%s@ret%d", c.Name, k), "false", c.Pos, err.Error())
 			continue
 		}
